@@ -65,13 +65,16 @@ def lazyCond {V} (c : List V → Except Err (List Key)) : LStream V → Except E
 /-- fan-in of lazy streams (`MergeStreamReaders`): the sources' chunks (one source after the
     other: one of the possible interleavings) and the first error item of any source.
     (The reader of the merged stream stops at the first error item it receives; which chunks
-    it has seen by then is not observable through a failed result.) -/
-def lazyOps {V} : ValOps (LStream V) :=
+    it has seen by then is not observable through a failed result.)
+    The stream handed to a node that was sent no data (all-predecessor mode) is what
+    `emptyStreamFromGeneric` builds: ONE chunk carrying the zero value `z`, not a stream without
+    chunks (source fact `emptyStreamIsOneZeroChunk`). -/
+def lazyOps {V} (z : V) : ValOps (LStream V) :=
   { merge := fun ls => some { chunks := (ls.map (·.chunks)).flatten, err := ls.findSome? (·.err) },
-    zero := { chunks := [] } }
+    zero := { chunks := [z] } }
 
 /-- fan-in of chunk lists, the strict counterpart (`streamOps` of `C04Flat`, any value type) -/
-def listOps {V} : ValOps (List V) := { merge := fun ls => some ls.flatten, zero := [] }
+def listOps {V} (z : V) : ValOps (List V) := { merge := fun ls => some ls.flatten, zero := [z] }
 
 /-- the value a caller obtains from an output stream by concatenating it (Collect of the
     compiled graph; the harness draining Stream / Transform) -/
